@@ -7,6 +7,7 @@ mod corpus;
 mod cos;
 mod hist;
 mod lists;
+mod longhist;
 mod net;
 mod req;
 mod ser;
@@ -88,6 +89,7 @@ fn main() {
                 "c18" => cos::record_c18(&args[3], seed, n),
                 "c12" => req::record_c12(&args[3], seed, n),
                 "c11" => lists::record_c11(&args[3], seed, n),
+                "c06" => longhist::record_c06(&args[3], seed, n, args.get(6).map(|s| s.as_str()).unwrap_or("blocker")),
                 "c01" => corpus::record_c01(&args[3], seed, n, args.get(6).and_then(|s| s.parse().ok()).unwrap_or(40)),
                 "c20" => cb::record_c20(&args[3], seed, n, args.get(6).map(|s| s.as_str()).unwrap_or("")),
                 other => {
